@@ -58,6 +58,28 @@ def colliding_names(order):
     return pr
 
 
+def colliding_names_disjunctive(order):
+    """an action `tick` with a disjunctive precondition (split into pieces by the disjunctive-conditions remover) next to plain actions named
+    like the pieces the remover generates (`tick_0`, `tick_1`, `tick_0_0`), in every declaration order"""
+    pr = Problem("colliding_names_disjunctive_" + "_".join(order))
+    a, b, c = Fluent("a", BoolType()), Fluent("b", BoolType()), Fluent("c", BoolType())
+    for f in (a, b, c):
+        pr.add_fluent(f, default_initial_value=False)
+    acts = {}
+    tick = InstantaneousAction("tick")
+    tick.add_precondition(Or(a, Not(b)))
+    tick.add_effect(c, True)
+    acts["tick"] = tick
+    for nm, f, v in (("tick_0", a, True), ("tick_1", b, True), ("tick_0_0", b, False)):
+        t = InstantaneousAction(nm)
+        t.add_effect(f, v)
+        acts[nm] = t
+    for n in order:
+        pr.add_action(acts[n])
+    pr.add_goal(And(a, c))
+    return pr
+
+
 def separator_names():
     """object / parameter names containing the separator used when grounded names are joined"""
     pr = Problem("separator_names")
@@ -171,6 +193,9 @@ def crafted_cases():
     for order in (("tick", "tick_0", "tick_1"), ("tick_1", "tick", "tick_0"), ("tick_0", "tick_1", "tick")):
         out.append(("crafted:colliding_names", (CK.CONDITIONAL_EFFECTS_REMOVING,), colliding_names(order)))
         out.append(("crafted:colliding_names+grounding", (CK.CONDITIONAL_EFFECTS_REMOVING, CK.GROUNDING), colliding_names(order)))
+    for order in (("tick", "tick_0", "tick_1", "tick_0_0"), ("tick_0_0", "tick_1", "tick_0", "tick"), ("tick_0", "tick", "tick_0_0", "tick_1")):
+        out.append(("crafted:colliding_names_disjunctive", (CK.DISJUNCTIVE_CONDITIONS_REMOVING,), colliding_names_disjunctive(order)))
+        out.append(("crafted:colliding_names_disjunctive+grounding", (CK.DISJUNCTIVE_CONDITIONS_REMOVING, CK.GROUNDING), colliding_names_disjunctive(order)))
     for k in ("always", "sometime", "at_most_once", "sometime_before", "sometime_after"):
         out.append(("crafted:trajectory_" + k, (CK.TRAJECTORY_CONSTRAINTS_REMOVING,), trajectory(k)))
     for k in ("always+sometime", "sometime+always", "always+at_most_once", "always+sometime_after", "always+sometime+sometime", "always+always+sometime"):
